@@ -100,15 +100,16 @@ def check(case):
             res.fail("C17.run2.escape", "run 2 with @%s raised %s: %s (file content %r)"
                      % (rerun_rel, type(run2.escaped).__name__, run2.escaped, lines))
             return res
-        started = [ident for h, ident in run2.hooks if h == "before_scenario"]
+        # scenarios are identified by their location (names need not be unique)
+        started = [os.path.normpath(str(obj.location)) for obj in run2.ran_scenarios]
         want_names = [n for _l, n in expected]
-        if sorted(started) != sorted(want_names):
-            res.fail("C17.rerun-selection", "run 2 started %r, the rerun file lists %r" % (started, want_names))
+        if sorted(started) != sorted(want_cmp):
+            res.fail("C17.rerun-selection", "run 2 started %r, the rerun file lists %r (%r)" % (started, want, want_names))
         for f in run2.features:
             for s in f.walk_scenarios():
-                if s.name not in want_names and s.status.name != "skipped":
-                    res.fail("C17.rerun-others-not-skipped", "run 2: %r is not in the rerun file but has status %s"
-                             % (s.name, s.status.name))
+                if os.path.normpath(str(s.location)) not in want_cmp and s.status.name != "skipped":
+                    res.fail("C17.rerun-others-not-skipped", "run 2: %r at %s is not in the rerun file but has status %s"
+                             % (s.name, s.location, s.status.name))
                     break
         res.label("failures")
         for k in failed_kind:
@@ -122,6 +123,9 @@ def check(case):
             res.label("row-listed")
         if prog.get("hook_faults"):
             res.label("hook-fault")
+        all_names = [s.name for f in run1.features for s in f.walk_scenarios()]
+        if any(all_names.count(n) > 1 for n in want_names):
+            res.label("listed-name-not-unique")
         res.nontrivial = len(failed_kind) == 2 or bool(os.path.dirname(rerun_rel))
     finally:
         proj.close()
@@ -140,6 +144,13 @@ def case_st(draw):
             "rerun_file": draw(st.sampled_from(["rerun.txt", "rerun.txt", "reports/rerun.txt", "features/rerun.features"]))}
     if draw(st.booleans()):
         case["subdirs"] = {"1": "sub"}
+    if draw(st.integers(0, 2)) == 0:
+        # equally named scenarios / outlines (typically in different rules): names are no identity
+        for f in prog["features"]:
+            for it in f["items"]:
+                for sub in (it["items"] if it["k"] == "r" else [it]):
+                    if draw(st.booleans()):
+                        sub["name"] = draw(st.sampled_from([u"same", u"same", u"twin"]))
     return case
 
 
@@ -150,7 +161,7 @@ def explore(rec):
 
 def required_labels(tier):
     return ["no-failures", "failures", "kind:failed", "kind:error", "rerun-file:subdir", "stale-removed",
-            "stale-overwritten", "row-listed", "hook-fault"]
+            "stale-overwritten", "row-listed", "hook-fault", "listed-name-not-unique"]
 
 
 KNOWN_PREDICATES = {}
